@@ -209,6 +209,24 @@ def shrink(lines, still_fails, max_steps=400):
             if chunk == 1:
                 break
             n = min(len(lines), n * 2)
+    # bracket pairs cannot be removed one line at a time: try to unwrap each block (drop the pair, keep its body)
+    changed = True
+    while changed and steps < max_steps * 2:
+        changed = False
+        stack = []
+        pairs = []
+        for i, l in enumerate(lines):
+            if l.strip() == "{":
+                stack.append(i)
+            elif l.strip() == "}" and stack:
+                pairs.append((stack.pop(), i))
+        for i, j in pairs:
+            cand = lines[:i] + lines[i + 1:j] + lines[j + 1:]
+            steps += 1
+            if cand and still_fails(cand):
+                lines = cand
+                changed = True
+                break
     return lines
 
 
